@@ -8,6 +8,8 @@ import CCVerif.Lemmas.Equate
 import CCVerif.Model.Synth
 import CCVerif.Lemmas.Synth
 import CCVerif.Lemmas.SynthExact
+import CCVerif.Lemmas.SynthCorrectFrag
+import CCVerif.Lemmas.SynthCorrectHomFrag
 /-!
 # C12 — synthesis, merge and equation yield a consistent schema and exact translations
 
@@ -36,6 +38,10 @@ translations): `resetAliases_exact`, `renamed_trans`, `equate_exact` (texts incl
 `synth_exact` (every operand constituent: same kind, content renamed once by the final renaming;
 equated pairs: which side's content the survivor carries, per kind and text mode),
 `synth_nothing_else`, `synth_aliases_canonical`. Helper lemmas: Lemmas/SynthExact.lean.
+
+Sixth part (namespace `CCVerif.SynthCorrect`, end of the file): the SEMANTIC clause — the analysis of
+the result for any lawful, equivariant, content-only analysis of the generic schema machine
+(Lemmas/SynthCorrect*.lean).
 -/
 namespace CCVerif.Translation
 
@@ -1628,3 +1634,473 @@ theorem synth_refused {g : Names} {freshs : List Nat} {semOk : Bool} {op1 op2 : 
 example : synth realNames [] true exampleOp1 exampleOp2 [{ key := 1, value := 2 }] = .refused := by decide
 
 end CCVerif.Synth
+
+/-! # Sixth part: the SEMANTIC clause — the analysis of the result
+
+For ANY per-constituent analysis `A` of the generic schema machine (`Model/SchemaGen.lean`, the C07
+machine) that is lawful (`Lawful`, C07), equivariant (`Equivariance`, C08) and content-only
+(`ContentOnly`: reads neither uid nor skeleton — `Lemmas/SynthCorrect.lean`), seen through a `View`
+(how the analysis reads a token-level definition; `Compatible`: reading commutes with renaming).
+`entryOf A s u` is the entry `UpdateState` of the C07 machine computes for `u` on the content `s`
+from scratch; `FullyCorrect A s`: every entry is a successful one. The definition fragment
+(`fragA`, `fragView`) is an instance, used for the examples and counterexamples. -/
+namespace CCVerif.SynthCorrect
+open CCVerif.Translation CCVerif.Dedup CCVerif.Merge CCVerif.Equate CCVerif.Synth
+open CCVerif.SchemaGen (Analysis Lawful Equivariance ContentOnly entryOf FullyCorrect fragA
+  fragEquivariance fragA_lawful)
+
+variable {D I : Type} {A : Analysis D I}
+
+private theorem merge_mergeOf (Q : Equivariance A) (V : View D) (hV : V.Compatible A Q)
+    {g : Names} {freshs : List Nat} {a b mr : Schema} {tr : Tr} {m : String → String}
+    (ha : WF a) (hb : WF b) (h : mergeWith g freshs a b = some (mr, tr)) (hm : IsMergeRenaming b mr tr m)
+    (r : Q.Ren) (hr : ActsLike V Q r m b) (hcap : NoCapture V A a b mr) :
+    SchemaGen.MergeOf A Q r (image tr) (V.store a) (V.store b) (V.store mr) := by
+  have hcons := merge_consistent ha hb h
+  have hrep := merge_represented ha hb h
+  refine mergeOf_view V Q hV r hcons.1.1 hcons.1.2 hcons.2.1 ?_ hm.2 hr hcap
+  intro c2 hc2
+  obtain ⟨s, hs, hl, _, hk⟩ := hrep.1 c2 hc2
+  exact ⟨s, hs, hl, (hm.1 c2 hc2 s hs hl).symm, hk, (merge_exact ha hb h hm c2 hc2 s hs hl).1⟩
+
+/-- **merge_analysis** (stage 1, `MergeWith`, no equations). For every lawful, equivariant,
+content-only analysis: let `m` be the renaming of the merge (`IsMergeRenaming`, exists by
+`merge_renaming_exists`) and `r` an admissible renaming of the analysis that acts like `m` on the
+names of operand `b` (aliases and mention tokens). PROVISO (`NoCapture`): no name that an operand
+mentions without resolving it is an alias of the merged schema. Then, analysed from scratch, every
+constituent of the host `a` has in the merged schema the entry it has in `a`, and the copy of every
+constituent of `b` has the entry it has in `b` renamed by `r` (status kept — `Equivariance.ok_ren` —,
+typification with the aliases substituted). -/
+theorem merge_analysis (hA : Lawful A) (hC : ContentOnly A) (Q : Equivariance A) (V : View D)
+    (hV : V.Compatible A Q) {g : Names} {freshs : List Nat} {a b mr : Schema} {tr : Tr} {m : String → String}
+    (ha : WF a) (hb : WF b) (h : mergeWith g freshs a b = some (mr, tr)) (hm : IsMergeRenaming b mr tr m)
+    (r : Q.Ren) (hr : ActsLike V Q r m b) (hcap : NoCapture V A a b mr) :
+    (∀ c ∈ a, entryOf A (V.store mr) c.uid = entryOf A (V.store a) c.uid) ∧
+    (∀ c2 ∈ b, ∀ s ∈ mr, lookup tr c2.uid = some s.uid →
+      entryOf A (V.store mr) s.uid = Q.renI r (entryOf A (V.store b) c2.uid)) := by
+  have hM := merge_mergeOf Q V hV ha hb h hm r hr hcap
+  obtain ⟨e1, e2⟩ := SchemaGen.merge_entries hA hC hM (by rw [uids_store]; exact ha.1)
+    (by rw [uids_store]; exact hb.1) (by rw [aliases_store]; exact hb.2)
+  refine ⟨fun c hc => e1 (V.cst c) (List.mem_map.2 ⟨c, hc, rfl⟩), fun c2 hc2 s _ hl => ?_⟩
+  have := e2 (V.cst c2) (List.mem_map.2 ⟨c2, hc2, rfl⟩)
+  rw [show (V.cst c2).uid = c2.uid from rfl, image_of_lookup' hl] at this
+  exact this
+
+/-- **merge_correct**: both operands fully correct ⇒ the merged schema is fully correct (same
+hypotheses as `merge_analysis`). -/
+theorem merge_correct (hA : Lawful A) (hC : ContentOnly A) (Q : Equivariance A) (V : View D)
+    (hV : V.Compatible A Q) {g : Names} {freshs : List Nat} {a b mr : Schema} {tr : Tr} {m : String → String}
+    (ha : WF a) (hb : WF b) (h : mergeWith g freshs a b = some (mr, tr)) (hm : IsMergeRenaming b mr tr m)
+    (r : Q.Ren) (hr : ActsLike V Q r m b) (hcap : NoCapture V A a b mr)
+    (h1 : FullyCorrect A (V.store a)) (h2 : FullyCorrect A (V.store b)) : FullyCorrect A (V.store mr) := by
+  have hM := merge_mergeOf Q V hV ha hb h hm r hr hcap
+  refine SchemaGen.merge_fully_correct hA hC hM (by rw [uids_store]; exact ha.1)
+    (by rw [uids_store]; exact hb.1) (by rw [aliases_store]; exact hb.2) ?_ h1 h2
+  intro u hu
+  rw [uids_store] at hu
+  obtain ⟨s, hs, rfl⟩ := List.mem_map.1 hu
+  rcases mergeWith_origin ha.1 ha.2 hb.1 hb.2 h s hs with ho | ⟨c2, hc2, hl⟩
+  · left; rw [uids_store]; exact List.mem_map.2 ⟨s, ho, rfl⟩
+  · right
+    exact ⟨V.cst c2, List.mem_map.2 ⟨c2, hc2, rfl⟩, (image_of_lookup' hl).symm⟩
+
+/-- a schema in which every mentioned name resolves has no dangling names -/
+theorem noCapture_of_resolved (V : View D) (A : Analysis D I) {a b : Schema} (mr : Schema)
+    (h1 : ∀ c ∈ a, ∀ n ∈ A.mentions (V.read c.definition), n ∈ aliases a)
+    (h2 : ∀ c ∈ b, ∀ n ∈ A.mentions (V.read c.definition), n ∈ aliases b) : NoCapture V A a b mr := by
+  rintro n (⟨hn, c, hc, hm⟩ | ⟨hn, c, hc, hm⟩)
+  · exact absurd (h1 c hc n hm) hn
+  · exact absurd (h2 c hc n hm) hn
+
+/-- **merge_correct_closed**: for an analysis that fails on a mentioned name that denotes nothing
+(`hmiss`; part of `Homomorphic`, true of the fragment) the proviso `NoCapture` is automatic when both
+operands are fully correct — a fully correct schema has no dangling names; the proviso only concerns
+the entries of INCORRECT constituents in `merge_analysis`. -/
+theorem merge_correct_closed (hA : Lawful A) (hC : ContentOnly A) (Q : Equivariance A) (V : View D)
+    (hV : V.Compatible A Q)
+    (hmiss : ∀ (sk : SchemaGen.Skel) (ctx : String → Option I) (c : SchemaGen.Cst D) (m : String),
+      m ∈ A.mentions c.defn → ctx m = none → A.ok (A.analyse sk ctx c) = false)
+    {g : Names} {freshs : List Nat} {a b mr : Schema} {tr : Tr} {m : String → String}
+    (ha : WF a) (hb : WF b) (h : mergeWith g freshs a b = some (mr, tr)) (hm : IsMergeRenaming b mr tr m)
+    (r : Q.Ren) (hr : ActsLike V Q r m b)
+    (h1 : FullyCorrect A (V.store a)) (h2 : FullyCorrect A (V.store b)) : FullyCorrect A (V.store mr) := by
+  refine merge_correct hA hC Q V hV ha hb h hm r hr ?_ h1 h2
+  have key : ∀ (l : Schema), (uids l).Nodup → FullyCorrect A (V.store l) → ∀ n, ¬ Dangling V A l n := by
+    rintro l hl hfc n ⟨hn, c, hc, hmn⟩
+    exact SchemaGen.FullyCorrect.resolved hA hmiss (by rw [uids_store]; exact hl) hfc (V.cst c)
+      (List.mem_map.2 ⟨c, hc, rfl⟩) n hmn ((findAliasL_store_none V).2 hn)
+  rintro n (hd | hd)
+  · exact absurd hd (key a ha.1 h1 n)
+  · exact absurd hd (key b hb.1 h2 n)
+
+/-! ### the two operands of the examples: `A = X1, D1 := X1 ∪ X1`, `B = X1, D1 := X1 \ X1` -/
+
+def opA : Schema :=
+  [ { uid := 1, alias := "X1", kind := 1, definition := [], rest := [[], [], []] },
+    { uid := 2, alias := "D1", kind := 6, definition := [.mention "X1", .sym "∪", .mention "X1"], rest := [[], [], []] } ]
+def opB : Schema :=
+  [ { uid := 1, alias := "X1", kind := 1, definition := [], rest := [[], [], []] },
+    { uid := 2, alias := "D1", kind := 6, definition := [.mention "X1", .sym "\\", .mention "X1"], rest := [[], [], []] } ]
+/-- uids and aliases collide: the copies get the fresh uids 77, 78 and the aliases `X2`, `D2` -/
+def mergedAB : Schema × Tr :=
+  ( [ { uid := 1, alias := "X1", kind := 1, definition := [], rest := [[], [], []] },
+      { uid := 77, alias := "X2", kind := 1, definition := [], rest := [[], [], []] },
+      { uid := 2, alias := "D1", kind := 6, definition := [.mention "X1", .sym "∪", .mention "X1"], rest := [[], [], []] },
+      { uid := 78, alias := "D2", kind := 6, definition := [.mention "X2", .sym "\\", .mention "X2"], rest := [[], [], []] } ],
+    [(1, 77), (2, 78)] )
+def renAB (x : String) : String := if x = "X1" then "X2" else if x = "D1" then "D2" else x
+/-- the admissible renaming of the fragment: the transpositions `X1 ↔ X2`, `D1 ↔ D2` -/
+def bijAB : Bij := Bij.comp (Bij.swap "X1" "X2") (Bij.swap "D1" "D2")
+
+private theorem renAB_is : IsMergeRenaming opB mergedAB.1 mergedAB.2 renAB := by
+  refine ⟨by decide, fun x hx => ?_⟩
+  have h1 : x ≠ "X1" := fun e => hx (by subst e; decide)
+  have h2 : x ≠ "D1" := fun e => hx (by subst e; decide)
+  simp [renAB, h1, h2]
+
+private theorem bijAB_acts : ActsLike fragView fragEquivariance bijAB renAB opB :=
+  ⟨by decide, fun _ _ => trivial⟩
+
+/-- non-vacuity of `merge_analysis` / `merge_correct` on the fragment: all hypotheses hold for `A`, `B`
+(the merge renames), both operands are fully correct, and the entries are as stated: the copy `D2` of
+`B`'s `D1` is verified with typification ℬ(X2) = ℬ(X1) renamed -/
+example : WF opA ∧ WF opB ∧ mergeWith realNames [77, 78] opA opB = some mergedAB ∧
+    IsMergeRenaming opB mergedAB.1 mergedAB.2 renAB ∧
+    ActsLike fragView fragEquivariance bijAB renAB opB ∧ NoCapture fragView fragA opA opB mergedAB.1 ∧
+    FullyCorrect fragA (fragView.store opA) ∧ FullyCorrect fragA (fragView.store opB) ∧
+    entryOf fragA (fragView.store opB) 2 = { status := .verified, ty := some "X1" } ∧
+    entryOf fragA (fragView.store mergedAB.1) 78 = { status := .verified, ty := some "X2" } :=
+  ⟨by unfold WF; decide, by unfold WF; decide, by decide, renAB_is, bijAB_acts,
+    noCapture_of_resolved _ _ _ (by decide) (by decide), by decide, by decide, by decide, by decide⟩
+
+example : FullyCorrect fragA (fragView.store mergedAB.1) :=
+  merge_correct fragA_lawful fragA_contentOnly fragEquivariance fragView fragView_compatible
+    (g := realNames) (freshs := [77, 78]) (a := opA) (b := opB) (by unfold WF; decide) (by unfold WF; decide) (by decide)
+    renAB_is bijAB bijAB_acts (noCapture_of_resolved _ _ _ (by decide) (by decide)) (by decide) (by decide)
+
+example : FullyCorrect fragA (fragView.store mergedAB.1) :=
+  merge_correct_closed fragA_lawful fragA_contentOnly fragEquivariance fragView fragView_compatible
+    fragHom.missing (g := realNames) (freshs := [77, 78]) (a := opA) (b := opB) (by unfold WF; decide)
+    (by unfold WF; decide) (by decide) renAB_is bijAB bijAB_acts (by decide) (by decide)
+
+/-- **merge_capture_counterexample**: the proviso `NoCapture` is necessary. Host `X1, D1 := X2 ∪ X2`
+(`X2` resolves to nothing: `D1` is incorrect), operand `X1`: the copy is issued the alias `X2`, the
+dangling name is captured and `D1` becomes verified with typification ℬ(X2) — its entry in the merged
+schema is not its entry in the host. All other hypotheses of `merge_analysis` hold. -/
+theorem merge_capture_counterexample :
+    ∃ (a b mr : Schema) (tr : Tr) (m : String → String) (r : Bij), WF a ∧ WF b ∧
+      mergeWith realNames [77] a b = some (mr, tr) ∧ IsMergeRenaming b mr tr m ∧
+      ActsLike fragView fragEquivariance r m b ∧ ¬ NoCapture fragView fragA a b mr ∧
+      ∃ c ∈ a, entryOf fragA (fragView.store a) c.uid = { status := .incorrect, ty := none } ∧
+        entryOf fragA (fragView.store mr) c.uid = { status := .verified, ty := some "X2" } := by
+  refine ⟨[ { uid := 1, alias := "X1", kind := 1, definition := [], rest := [] },
+            { uid := 2, alias := "D1", kind := 6, definition := [.mention "X2", .sym "∪", .mention "X2"], rest := [] } ],
+          [ { uid := 1, alias := "X1", kind := 1, definition := [], rest := [] } ],
+          [ { uid := 1, alias := "X1", kind := 1, definition := [], rest := [] },
+            { uid := 77, alias := "X2", kind := 1, definition := [], rest := [] },
+            { uid := 2, alias := "D1", kind := 6, definition := [.mention "X2", .sym "∪", .mention "X2"], rest := [] } ],
+          [(1, 77)], (fun x => if x = "X1" then "X2" else x), Bij.swap "X1" "X2",
+          by unfold WF; decide, by unfold WF; decide, by decide, ⟨by decide, fun x hx => ?_⟩,
+          ⟨by decide, fun _ _ => trivial⟩, ?_, _, List.mem_cons_of_mem _ (List.mem_cons_self ..), by decide, by decide⟩
+  · have h1 : x ≠ "X1" := fun e => hx (by subst e; decide)
+    simp [h1]
+  · intro hcap
+    exact hcap "X2" (Or.inl ⟨by decide, _, List.mem_cons_of_mem _ (List.mem_cons_self ..), by decide⟩) (by decide)
+
+
+/-! ### stage 2: through `DeleteDuplicates` (nothing found) and `ResetAliases` -/
+
+/-- the provisos of a synthesis without equations, about the run of the model: for the merged schema
+`m`, the renaming `m1` of the merge and the re-numbering `ρ` of `ResetAliases` — no dangling name is
+captured by the merge, and `m1`, `ρ` act on the names of operand 2 resp. of `m` like admissible
+renamings of the analysis (in particular injectively: `ResetAliases` captures no dangling name) -/
+def SynthProvisos (V : View D) (A : Analysis D I) (Q : Equivariance A) (g : Names) (freshs : List Nat)
+    (op1 op2 res : Schema) : Prop :=
+  ∀ m trM m1 ρ, mergeWith g freshs op1 op2 = some (m, trM) → IsMergeRenaming op2 m trM m1 →
+    res = m.map (substAliases ρ) → (∀ x, x ∉ aliases m → ρ x = x) →
+    NoCapture V A op1 op2 m ∧ (∃ r1 : Q.Ren, ActsLike V Q r1 m1 op2) ∧ (∃ r2 : Q.Ren, ActsLike V Q r2 ρ m)
+
+private theorem synth_noeq_unfold {g : Names} {freshs : List Nat} {semOk : Bool} {op1 op2 res : Schema}
+    {tr1 tr2 : Tr} (h : synth g freshs semOk op1 op2 [] = .ok res tr1 tr2)
+    (hnc : ∀ m trM, mergeWith g freshs op1 op2 = some (m, trM) → NoCopies m) :
+    ∃ m trM, mergeWith g freshs op1 op2 = some (m, trM) ∧ resetAliases g m = some res ∧
+      tr1 = substituteValues (identity (uids op1)) [] ∧ tr2 = substituteValues trM [] := by
+  unfold synth at h
+  split at h
+  · cases h
+  · rename_i m trM hm
+    have hd : dedup m = some (m, []) := loop_of_noCopies m.length m [] (hnc m trM hm)
+    simp only [List.isEmpty_nil, if_true, hd] at h
+    split at h
+    · cases h
+    · rename_i r hr
+      simp only [Res.ok.injEq] at h
+      obtain ⟨rfl, rfl, rfl⟩ := h
+      exact ⟨m, trM, hm, hr, rfl, rfl⟩
+
+/-- **synth_analysis_no_equations** (stage 2): `BinarySynthes` with an empty table when
+`DeleteDuplicates` finds nothing in the merged schema. The result is the merged schema `m` re-numbered
+by ONE function `ρ` (`res = m.map (substAliases ρ)`); for admissible renamings `r1`, `r2` of the
+analysis acting like the merge renaming `m1` on operand 2 and like `ρ` on `m`, and under the proviso of
+the merge: the image of a constituent of operand 1 has the entry it has in operand 1 renamed by `r2`,
+the image of a constituent of operand 2 its entry in operand 2 renamed by `r1`, then `r2`. -/
+theorem synth_analysis_no_equations (hA : Lawful A) (hC : ContentOnly A) (Q : Equivariance A) (V : View D)
+    (hV : V.Compatible A Q) {g : Names} {freshs : List Nat} {semOk : Bool} {op1 op2 res : Schema} {tr1 tr2 : Tr}
+    (hw1 : WF op1) (hw2 : WF op2) (h : synth g freshs semOk op1 op2 [] = .ok res tr1 tr2)
+    (hnc : ∀ m trM, mergeWith g freshs op1 op2 = some (m, trM) → NoCopies m) :
+    ∃ m trM m1 ρ, mergeWith g freshs op1 op2 = some (m, trM) ∧ IsMergeRenaming op2 m trM m1 ∧
+      res = m.map (substAliases ρ) ∧ (∀ x, x ∉ aliases m → ρ x = x) ∧
+      ∀ (r1 r2 : Q.Ren), ActsLike V Q r1 m1 op2 → ActsLike V Q r2 ρ m → NoCapture V A op1 op2 m →
+        (∀ c ∈ op1, ∀ s ∈ res, lookup tr1 c.uid = some s.uid →
+          entryOf A (V.store res) s.uid = Q.renI r2 (entryOf A (V.store op1) c.uid)) ∧
+        (∀ c ∈ op2, ∀ s ∈ res, lookup tr2 c.uid = some s.uid →
+          entryOf A (V.store res) s.uid = Q.renI r2 (Q.renI r1 (entryOf A (V.store op2) c.uid))) := by
+  obtain ⟨m, trM, hm, hr, rfl, rfl⟩ := synth_noeq_unfold h hnc
+  have hcons := merge_consistent hw1 hw2 hm
+  obtain ⟨m1, hm1⟩ := merge_renaming_exists hw1 hw2 hm
+  obtain ⟨ρ, rfl, hoff, _⟩ := resetAliases_eq hcons.1.2 hr
+  refine ⟨m, trM, m1, ρ, hm, hm1, rfl, hoff, fun r1 r2 hr1 hr2 hcap => ?_⟩
+  obtain ⟨e1, e2⟩ := merge_analysis hA hC Q V hV hw1 hw2 hm hm1 r1 hr1 hcap
+  have hstore := store_substAliases V Q hV r2 hr2
+  have hren : ∀ u ∈ uids m, entryOf A (V.store (m.map (substAliases ρ))) u =
+      Q.renI r2 (entryOf A (V.store m) u) := by
+    intro u hu
+    rw [hstore]
+    exact SchemaGen.rename_entries hA Q r2 (by rw [uids_store]; exact hcons.1.1)
+      (by intro c' hc'; obtain ⟨c, hc, rfl⟩ := List.mem_map.1 hc'; exact hr2.good c hc)
+      (by rw [uids_store]; exact hu)
+  refine ⟨fun c hc s _ hl => ?_, fun c2 hc2 s _ hl => ?_⟩
+  · rw [substituteValues_apply, identity_apply, if_pos (show c.uid ∈ uids op1 from List.mem_map.2 ⟨c, hc, rfl⟩)] at hl
+    simp only [Option.map_some, lookup, List.find?_nil, Option.map_none, Option.getD_none,
+      Option.some.injEq] at hl
+    rw [← hl, hren _ (List.mem_map.2 ⟨c, hcons.2.1 c hc, rfl⟩), e1 c hc]
+  · obtain ⟨s', hs', hl', _⟩ := (merge_represented hw1 hw2 hm).1 c2 hc2
+    rw [substituteValues_apply, hl'] at hl
+    simp only [Option.map_some, lookup, List.find?_nil, Option.map_none, Option.getD_none,
+      Option.some.injEq] at hl
+    rw [← hl, hren _ (List.mem_map.2 ⟨s', hs', rfl⟩), e2 c2 hc2 s' hs' hl']
+
+/-- **synth_correct_no_equations**: operands fully correct ⇒ the result of a synthesis without
+equations (no duplicates found) is fully correct, under the provisos `SynthProvisos`. -/
+theorem synth_correct_no_equations (hA : Lawful A) (hC : ContentOnly A) (Q : Equivariance A) (V : View D)
+    (hV : V.Compatible A Q) {g : Names} {freshs : List Nat} {semOk : Bool} {op1 op2 res : Schema} {tr1 tr2 : Tr}
+    (hw1 : WF op1) (hw2 : WF op2) (h : synth g freshs semOk op1 op2 [] = .ok res tr1 tr2)
+    (hnc : ∀ m trM, mergeWith g freshs op1 op2 = some (m, trM) → NoCopies m)
+    (hp : SynthProvisos V A Q g freshs op1 op2 res)
+    (h1 : FullyCorrect A (V.store op1)) (h2 : FullyCorrect A (V.store op2)) : FullyCorrect A (V.store res) := by
+  obtain ⟨m, trM, hm, hr, rfl, rfl⟩ := synth_noeq_unfold h hnc
+  have hcons := merge_consistent hw1 hw2 hm
+  obtain ⟨m1, hm1⟩ := merge_renaming_exists hw1 hw2 hm
+  obtain ⟨ρ, rfl, hoff, _⟩ := resetAliases_eq hcons.1.2 hr
+  obtain ⟨hcap, ⟨r1, hr1⟩, ⟨r2, hr2⟩⟩ := hp m trM m1 ρ hm hm1 rfl hoff
+  have hmc := merge_correct hA hC Q V hV hw1 hw2 hm hm1 r1 hr1 hcap h1 h2
+  rw [store_substAliases V Q hV r2 hr2]
+  exact SchemaGen.rename_fully_correct hA Q r2 (by rw [uids_store]; exact hcons.1.1)
+    (by intro c' hc'; obtain ⟨c, hc, rfl⟩ := List.mem_map.1 hc'; exact hr2.good c hc) hmc
+
+/-- the synthesis of `A` and `B` without equations: the merged schema, already canonically numbered -/
+def synthAB : Res := .ok mergedAB.1 [(1, 1), (2, 2)] [(1, 77), (2, 78)]
+
+private theorem synthAB_provisos : SynthProvisos fragView fragA fragEquivariance realNames [77, 78] opA opB mergedAB.1 := by
+  intro m trM m1 ρ hm hm1 hres hoff
+  have e : some (m, trM) = some mergedAB := by rw [← hm]; decide
+  simp only [Option.some.injEq] at e
+  obtain ⟨rfl, rfl⟩ : m = mergedAB.1 ∧ trM = mergedAB.2 := by rw [← e]; exact ⟨rfl, rfl⟩
+  refine ⟨noCapture_of_resolved _ _ _ (by decide) (by decide), ⟨bijAB, ?_, fun _ _ => trivial⟩,
+    ⟨Bij.id, ?_, fun _ _ => trivial⟩⟩
+  · have a1 := hm1.1 opB[0] (by decide) mergedAB.1[1] (by decide) (by decide)
+    have a2 := hm1.1 opB[1] (by decide) mergedAB.1[3] (by decide) (by decide)
+    intro n hn
+    have : n = "X1" ∨ n = "D1" ∨ n = "X1" := by
+      simp only [tokNames, opB, aliases, mentionNames] at hn
+      simpa using hn
+    rcases this with rfl | rfl | rfl
+    · exact a1.symm ▸ (by decide)
+    · exact a2.symm ▸ (by decide)
+    · exact a1.symm ▸ (by decide)
+  · have := congrArg aliases hres
+    simp only [mergedAB, aliases, substAliases, List.map_cons, List.map_nil, List.cons.injEq, and_true] at this
+    obtain ⟨b1, b2, b3, b4⟩ := this
+    intro n hn
+    have : n = "X1" ∨ n = "X2" ∨ n = "D1" ∨ n = "D2" ∨ n = "X1" ∨ n = "X2" := by
+      simp only [tokNames, mergedAB, aliases, mentionNames] at hn
+      simpa using hn
+    show n = ρ n
+    rcases this with rfl | rfl | rfl | rfl | rfl | rfl
+    · exact b1
+    · exact b2
+    · exact b3
+    · exact b4
+    · exact b1
+    · exact b2
+
+/-- non-vacuity of `synth_analysis_no_equations` / `synth_correct_no_equations` on `A`, `B` -/
+example : WF opA ∧ WF opB ∧ synth realNames [77, 78] true opA opB [] = synthAB ∧
+    (∀ m trM, mergeWith realNames [77, 78] opA opB = some (m, trM) → NoCopies m) ∧
+    SynthProvisos fragView fragA fragEquivariance realNames [77, 78] opA opB mergedAB.1 ∧
+    FullyCorrect fragA (fragView.store opA) ∧ FullyCorrect fragA (fragView.store opB) := by
+  refine ⟨by unfold WF; decide, by unfold WF; decide, by decide, ?_, synthAB_provisos, by decide, by decide⟩
+  intro m trM hm
+  have e : some (m, trM) = some mergedAB := by rw [← hm]; decide
+  simp only [Option.some.injEq] at e
+  obtain ⟨rfl, -⟩ : m = mergedAB.1 ∧ trM = mergedAB.2 := by rw [← e]; exact ⟨rfl, rfl⟩
+  unfold NoCopies
+  decide
+
+
+/-! ### stage 3: identification (`Equate`, and the duplicate removal that follows it)
+
+`Homomorphic A` (Lemmas/SynthCorrectHom.lean) is the explicit HYPOTHESIS on the analysis: a
+successfully analysed constituent stays successfully analysed under a possibly NON-injective
+substitution of names, with the substituted typification. It is proved for the definition fragment
+(`fragHom`). "Keeps its typification up to the identification of the equated sets" means: the entry of
+the image is `H.homI Q` of the old entry, `Q` the renaming of `equate_exact` (alias ↦ alias of the
+image). The semantic half of admissibility — an input `semOk` of the model — is made explicit as two
+conditions on the model's data: `LikeWithLike` and `AcyclicSchema`. -/
+
+/-- **equate_correct**: an accepted table on a fully correct schema. There is a renaming `Q` as in
+`equate_exact`, and for every such renaming: if the identification equates like with like
+(`LikeWithLike`: constituents with one image have the same status and the same typification after the
+substitution `Q`) and the result does not depend on itself (`AcyclicSchema`), then the image of every
+constituent has its old entry with `Q` substituted in the typification, and the result is fully
+correct. -/
+theorem equate_correct (hA : Lawful A) (hC : ContentOnly A) (H : SchemaGen.Homomorphic A) (V : View D)
+    (hV : V.CompatibleHom H) {semOk : Bool} {l r : Schema} {eqs : List Entry} {tr : Tr}
+    (hw : WF l) (hk : (tkeys eqs).Nodup) (h : equate semOk l eqs = some (r, tr))
+    (hfc : FullyCorrect A (V.store l)) :
+    ∃ Q, StageExact l r tr eqs Q ∧ ∀ Q', StageExact l r tr eqs Q' → LikeWithLike V A H l tr Q' →
+      AcyclicSchema V A r →
+      (∀ c ∈ l, entryOf A (V.store r) (image tr c.uid) = H.homI Q' (entryOf A (V.store l) c.uid)) ∧
+      FullyCorrect A (V.store r) := by
+  obtain ⟨Q, hQ⟩ := equate_exact hw hk h
+  refine ⟨Q, hQ, fun Q' hQ' hlike hac => ?_⟩
+  have hq := quotientOf_view V H hV hQ' hlike hac
+  have hn : (SchemaGen.uids (V.store l)).Nodup := by rw [uids_store]; exact hw.1
+  exact ⟨fun c hc => SchemaGen.quotient_entries hA hC hn hfc hq (V.cst c) (List.mem_map.2 ⟨c, hc, rfl⟩),
+    SchemaGen.quotient_fully_correct hA hC hn hfc hq⟩
+
+/-- the statement of the clause for the whole synthesis with equations (NOT proved: the composition of
+`merge_correct`, `equate_correct` and `rename_fully_correct` through `TranslateEquations`; the three
+stages are proved separately) -/
+def synth_correct_statement : Prop :=
+  ∀ {D I : Type} (A : Analysis D I) (_ : Lawful A) (_ : ContentOnly A) (Q : Equivariance A)
+    (H : SchemaGen.Homomorphic A) (V : View D) (_ : V.Compatible A Q) (_ : V.CompatibleHom H)
+    (g : Names) (freshs : List Nat) (semOk : Bool) (op1 op2 res : Schema) (eqs : List Entry) (tr1 tr2 : Tr),
+    WF op1 → WF op2 → (tkeys eqs).Nodup → eqs ≠ [] → synth g freshs semOk op1 op2 eqs = .ok res tr1 tr2 →
+    FullyCorrect A (V.store op1) → FullyCorrect A (V.store op2) →
+    (∀ m trM, mergeWith g freshs op1 op2 = some (m, trM) →
+      NoCapture V A op1 op2 m ∧ (∀ m1, IsMergeRenaming op2 m trM m1 → ∃ r1 : Q.Ren, ActsLike V Q r1 m1 op2) ∧
+      ∀ e trE, equate semOk m (translateEquations m trM eqs) = some (e, trE) →
+        AcyclicSchema V A e ∧ (∀ Q', StageExact m e trE (translateEquations m trM eqs) Q' → LikeWithLike V A H m trE Q') ∧
+        ∀ ρ, res = e.map (substAliases ρ) → ∃ r2 : Q.Ren, ActsLike V Q r2 ρ e) →
+    FullyCorrect A (V.store res)
+
+/-- a fully correct schema: `X1`, `X2`, `D1 := X1 ∪ X1`, `D2 := X2 \ X2`, `D3 := D1 ∪ X1` -/
+def eqL : Schema :=
+  [ { uid := 1, alias := "X1", kind := 1, definition := [], rest := [[], [], []] },
+    { uid := 2, alias := "X2", kind := 1, definition := [], rest := [[], [], []] },
+    { uid := 3, alias := "D1", kind := 6, definition := [.mention "X1", .sym "∪", .mention "X1"], rest := [[], [], []] },
+    { uid := 4, alias := "D2", kind := 6, definition := [.mention "X2", .sym "\\", .mention "X2"], rest := [[], [], []] },
+    { uid := 5, alias := "D3", kind := 6, definition := [.mention "D1", .sym "∪", .mention "X1"], rest := [[], [], []] } ]
+/-- the base set `X1` equated with the base set `X2` (like with like) -/
+def eqR : Schema × Tr :=
+  ( [ { uid := 2, alias := "X2", kind := 1, definition := [], rest := [[], [], []] },
+      { uid := 3, alias := "D1", kind := 6, definition := [.mention "X2", .sym "∪", .mention "X2"], rest := [[], [], []] },
+      { uid := 4, alias := "D2", kind := 6, definition := [.mention "X2", .sym "\\", .mention "X2"], rest := [[], [], []] },
+      { uid := 5, alias := "D3", kind := 6, definition := [.mention "D1", .sym "∪", .mention "X2"], rest := [[], [], []] } ],
+    [(1, 2)] )
+def eqQ (x : String) : String := if x = "X1" then "X2" else x
+
+private theorem eqQ_stage : StageExact eqL eqR.1 eqR.2 [{ key := 1, value := 2 }] eqQ := by
+  obtain ⟨Q, hQ⟩ := equate_exact (semOk := true) (l := eqL) (r := eqR.1) (tr := eqR.2)
+    (eqs := [{ key := 1, value := 2 }]) (by unfold WF; decide) (by decide) (by decide)
+  have a1 := hQ.aliasOf eqL[0] (by decide) eqR.1[0] (by decide) (by decide)
+  have a2 := hQ.aliasOf eqL[1] (by decide) eqR.1[0] (by decide) (by decide)
+  have a3 := hQ.aliasOf eqL[2] (by decide) eqR.1[1] (by decide) (by decide)
+  have a4 := hQ.aliasOf eqL[3] (by decide) eqR.1[2] (by decide) (by decide)
+  have a5 := hQ.aliasOf eqL[4] (by decide) eqR.1[3] (by decide) (by decide)
+  have : Q = eqQ := by
+    funext x
+    by_cases hx : x ∈ aliases eqL
+    · have : x = "X1" ∨ x = "X2" ∨ x = "D1" ∨ x = "D2" ∨ x = "D3" := by simpa [aliases, eqL] using hx
+      rcases this with rfl | rfl | rfl | rfl | rfl
+      · exact a1
+      · exact a2
+      · exact a3
+      · exact a4
+      · exact a5
+    · rw [hQ.off x hx]
+      have : x ≠ "X1" := fun e => hx (by subst e; decide)
+      simp [eqQ, this]
+  rw [← this]; exact hQ
+
+/-- non-vacuity of `equate_correct` on the fragment: `X1 = X2` on a fully correct schema; the renaming is
+`X1 ↦ X2`; like with like and acyclic; e.g. `D3 := D1 ∪ X1` of typification ℬ(X1) becomes `D1 ∪ X2` of
+typification ℬ(X2) -/
+example : WF eqL ∧ equate true eqL [{ key := 1, value := 2 }] = some eqR ∧
+    FullyCorrect fragA (fragView.store eqL) ∧ StageExact eqL eqR.1 eqR.2 [{ key := 1, value := 2 }] eqQ ∧
+    LikeWithLike fragView fragA fragHom eqL eqR.2 eqQ ∧ AcyclicSchema fragView fragA eqR.1 ∧
+    entryOf fragA (fragView.store eqL) 5 = { status := .verified, ty := some "X1" } ∧
+    entryOf fragA (fragView.store eqR.1) 5 = { status := .verified, ty := some "X2" } :=
+  ⟨by unfold WF; decide, by decide, by decide, eqQ_stage, by unfold LikeWithLike; decide,
+    ⟨fun u => u, by decide⟩, by decide, by decide⟩
+
+/-- **equate_unlike_counterexample**: WITHOUT like with like the clause fails. On the fully correct
+schema `eqL` the table `D1 = D2` (typifications ℬ(X1) and ℬ(X2): derived constituents of UNEQUAL
+typification) passes the structural check; with the semantic verdict overridden (`semOk = true`) the
+model executes it: `D3 := D1 ∪ X1` becomes `D2 ∪ X1`, which is incorrect. The result is acyclic;
+`LikeWithLike` fails for every renaming of `equate_exact`. -/
+theorem equate_unlike_counterexample :
+    ∃ (l r : Schema) (eqs : List Entry) (tr : Tr), WF l ∧ (tkeys eqs).Nodup ∧
+      equate true l eqs = some (r, tr) ∧ FullyCorrect fragA (fragView.store l) ∧
+      AcyclicSchema fragView fragA r ∧
+      (∀ Q, StageExact l r tr eqs Q → ¬ LikeWithLike fragView fragA fragHom l tr Q) ∧
+      ¬ FullyCorrect fragA (fragView.store r) := by
+  refine ⟨eqL,
+    [ { uid := 1, alias := "X1", kind := 1, definition := [], rest := [[], [], []] },
+      { uid := 2, alias := "X2", kind := 1, definition := [], rest := [[], [], []] },
+      { uid := 4, alias := "D2", kind := 6, definition := [.mention "X2", .sym "\\", .mention "X2"], rest := [[], [], []] },
+      { uid := 5, alias := "D3", kind := 6, definition := [.mention "D2", .sym "∪", .mention "X1"], rest := [[], [], []] } ],
+    [{ key := 3, value := 4 }], [(3, 4)], by unfold WF; decide, by decide, by decide, by decide,
+    ⟨fun u => u, by decide⟩, ?_, by decide⟩
+  intro Q hQ hlike
+  have a1 : Q "X1" = "X1" := hQ.aliasOf eqL[0] (by decide) _ (List.mem_cons_self ..) (by decide)
+  have a2 : Q "X2" = "X2" := hQ.aliasOf eqL[1] (by decide) _ (List.mem_cons_of_mem _ (List.mem_cons_self ..)) (by decide)
+  have := hlike eqL[2] (by decide) eqL[3] (by decide) (by decide)
+  have e1 : entryOf fragA (fragView.store eqL) (eqL[2]).uid = { status := .verified, ty := some "X1" } := by decide
+  have e2 : entryOf fragA (fragView.store eqL) (eqL[3]).uid = { status := .verified, ty := some "X2" } := by decide
+  rw [e1, e2] at this
+  have := congrArg Schema.Info.ty this
+  simp only [fragHom, SchemaGen.renInfo, Option.map_some, Option.some.injEq] at this
+  rw [a1, a2] at this
+  exact absurd this (by decide)
+
+/-- **equate_cycle_counterexample**: like with like alone is not enough. `X1`, `D1 := X1 ∪ X1`,
+`D2 := D1 ∪ D1` (all of typification ℬ(X1)), table `D1 = D2` (equal typification, but the value is
+reachable from the key): `D2` becomes `D2 ∪ D2`, incorrect. `LikeWithLike` holds for every renaming. -/
+theorem equate_cycle_counterexample :
+    ∃ (l r : Schema) (eqs : List Entry) (tr : Tr), WF l ∧ (tkeys eqs).Nodup ∧
+      equate true l eqs = some (r, tr) ∧ FullyCorrect fragA (fragView.store l) ∧
+      (∀ Q, LikeWithLike fragView fragA fragHom l tr Q) ∧ ¬ AcyclicSchema fragView fragA r ∧
+      ¬ FullyCorrect fragA (fragView.store r) := by
+  refine ⟨[ { uid := 1, alias := "X1", kind := 1, definition := [], rest := [[], [], []] },
+            { uid := 2, alias := "D1", kind := 6, definition := [.mention "X1", .sym "∪", .mention "X1"], rest := [[], [], []] },
+            { uid := 3, alias := "D2", kind := 6, definition := [.mention "D1", .sym "∪", .mention "D1"], rest := [[], [], []] } ],
+          [ { uid := 1, alias := "X1", kind := 1, definition := [], rest := [[], [], []] },
+            { uid := 3, alias := "D2", kind := 6, definition := [.mention "D2", .sym "∪", .mention "D2"], rest := [[], [], []] } ],
+          [{ key := 2, value := 3 }], [(2, 3)], by unfold WF; decide, by decide, by decide, by decide, ?_, ?_, by decide⟩
+  · intro Q c hc d hd e
+    have : ∀ c ∈ ([ { uid := 1, alias := "X1", kind := 1, definition := [], rest := [[], [], []] },
+            { uid := 2, alias := "D1", kind := 6, definition := [.mention "X1", .sym "∪", .mention "X1"], rest := [[], [], []] },
+            { uid := 3, alias := "D2", kind := 6, definition := [.mention "D1", .sym "∪", .mention "D1"], rest := [[], [], []] } ] : Schema),
+        entryOf fragA (fragView.store [ { uid := 1, alias := "X1", kind := 1, definition := [], rest := [[], [], []] },
+            { uid := 2, alias := "D1", kind := 6, definition := [.mention "X1", .sym "∪", .mention "X1"], rest := [[], [], []] },
+            { uid := 3, alias := "D2", kind := 6, definition := [.mention "D1", .sym "∪", .mention "D1"], rest := [[], [], []] } ]) c.uid =
+          { status := .verified, ty := some "X1" } := by decide
+    rw [this c hc, this d hd]
+  · rintro ⟨rk, hrk⟩
+    have := hrk _ (List.mem_cons_of_mem _ (List.mem_cons_self ..)) "D2" (by decide) _
+      (List.mem_cons_of_mem _ (List.mem_cons_self ..)) rfl
+    exact Nat.lt_irrefl _ this
+
+end CCVerif.SynthCorrect
